@@ -347,4 +347,50 @@ def positionsP (k : Inj) (p : List Stmt) : List Pos := positionsFrom k [] [] p
 def Stmt.size (s : Stmt) : Nat := 1 + (s.slots.map (fun x => x.2.size)).sum
 def progSize (p : List Stmt) : Nat := (p.map Stmt.size).sum
 
+/-! ### class of the recorded finding C05-lt-enum-operand-accepted -/
+
+def Stmt.slotExpr : Stmt → Nat → Option Expr
+  | .defv e, 0 => some e
+  | .print e, 0 => some e
+  | .fun1 _ b, 0 => some b
+  | .fun2 _ _ b, 0 => some b
+  | .fun1d _ d _, 0 => some d
+  | .fun1d _ _ b, 1 => some b
+  | .lam _ b, 0 => some b
+  | .forp _ b, 0 => some b
+  | _, _ => none
+
+/-- the global definitions, in order (index = variable index) -/
+def defsOf : List Stmt → List Expr
+  | [] => []
+  | .defv e :: rest => e :: defsOf rest
+  | _ :: rest => defsOf rest
+
+/-- an if-expression, or a global variable defined by one: the checker gives these an enum (value-set) type -/
+def enumLike (defs : List Expr) : Expr → Bool
+  | .ite _ _ _ => true
+  | .var x => match defs[x]? with
+    | some (.ite _ _ _) => true
+    | _ => false
+  | _ => false
+
+/-- the operand injector applied to a `<` whose left operand is enum-typed: the real checker accepts `x < "s"` there -/
+def inKLtEnum (k : Inj) (p : List Stmt) (pos : Pos) : Bool :=
+  decide (k = .operand) &&
+    (match p[pos.stmt]? with
+     | some s => match (s.slotExpr pos.slot).bind (fun e => subAt e pos.path) with
+       | some (.bin .lt l _) => enumLike (defsOf (p.take pos.stmt)) l
+       | _ => false
+     | none => false)
+
+/-- the operand injector applied to a `*` in a loop body whose left operand is the loop variable (recorded finding
+    C05-loopvar-mul-str-accepted) -/
+def inKLoopVarMul (k : Inj) (p : List Stmt) (pos : Pos) : Bool :=
+  decide (k = .operand) &&
+    (match p[pos.stmt]? with
+     | some (.forp _ b) => match subAt b pos.path with
+       | some (.bin .mul (.var x) _) => decide (x = (defsOf (p.take pos.stmt)).length)
+       | _ => false
+     | _ => false)
+
 end ErgVerif.C05
